@@ -112,6 +112,7 @@ let c10_oracles (ops : string list) (impl : res list list list) : (string * bool
   (* every connect request is answered at most once: accepted or rejected events never outnumber the requests that emitted a packet *)
   let connects = ref 0 and answers = ref 0 and answered_ok = ref true in
   let accepted_ok = ref true in
+  let idle_ok = ref true and idle_unknown = ref false in
   (* the server's messages as the client receives them (specification decoder on the inbound bytes, piece by piece): the onStatus
      codes that complete in each input call *)
   let pin = { ist = ChunkSpec.sdec_init; buf = []; broken = false } in
@@ -153,9 +154,30 @@ let c10_oracles (ops : string list) (impl : res list list list) : (string * bool
      | ("video" | "audio" | "meta") :: _ -> if has_packet && not !publishing then flag pubmedia_ok
      | _ -> ());
     if errored_input then tainted := true;
-    let codes = (match t with
-      | ["in"; _; part; h] -> (try List.concat_map (fun piece -> status_codes (inbound_feed pin piece)) (partition part (bytes_of_hex h)) with _ -> pin.broken <- true; [])
+    (* the server's messages that complete in each input call of this operation (one call per piece) *)
+    let per_call : Chunk.msg list list = (match t with
+      | ["in"; _; part; h] -> (try List.map (fun piece -> inbound_feed pin piece) (partition part (bytes_of_hex h)) with _ -> pin.broken <- true; [])
       | _ -> []) in
+    let codes = List.concat_map status_codes per_call in
+    (* a refused answer (createStream result without a stream number, createStream error, malformed or out-of-state status) changes
+       nothing: a connected client whose own wire traffic shows it idle must still be allowed to request playback or publishing.
+       Not judged after an input call that failed for another reason, or that failed with more than one message completing in it
+       (the class of known finding K4: results of the earlier messages of that call are lost). *)
+    let refusal s = List.exists (fun p -> starts_with p s) ["ERR:NoStreamNumber"; "ERR:CreateStreamFailed"; "ERR:InvalidOnStatus"; "ERR:InvalidState"] in
+    (match t with
+     | "in" :: _ ->
+       let rec walk (cs : res list list) (ms : Chunk.msg list list) =
+         match cs with
+         | [] -> ()
+         | c :: cs' ->
+           let n = (match ms with m :: _ -> List.length m | [] -> 2) in
+           List.iter (function Other e when starts_with "ERR:" e -> if n >= 2 || not (refusal e) || pin.broken then idle_unknown := true | _ -> ()) c;
+           walk cs' (match ms with _ :: ms' -> ms' | [] -> []) in
+       walk calls per_call
+     | ("play" | "publish") :: _ ->
+       if !connected && !activity = 0 && peer.ok && not !idle_unknown && not has_packet
+          && List.exists (function Other e -> starts_with "ERR:InvalidState" e | _ -> false) all then idle_ok := false
+     | _ -> ());
     let saw code = pin.broken || List.mem code codes in
     List.iter (function
       | Other "E:PlayAccepted" when not (saw "NetStream.Play.Start") -> flag accepted_ok
@@ -177,6 +199,7 @@ let c10_oracles (ops : string list) (impl : res list list list) : (string * bool
     "C10.publish_media_only_while_publishing", !pubmedia_ok; "C10.stop_emits_delete_stream_exactly_from_matching_activity", !stop_ok;
     "C10.each_connect_request_answered_at_most_once", !answered_ok;
     "C10.accepted_event_matches_the_request_on_the_wire", !accepted_ok;
+    "C10.refused_answer_keeps_the_session_idle", !idle_ok;
     "C10.workflow_after_failed_input", !after_fail_ok ]
 
 let oracle (toks : string list) (obs : string) : (string * bool) list =
